@@ -231,4 +231,6 @@ def main(pid, tier, seed):
             if pid == 'C02':
                 probe_variable_names(rep)
                 growth_misc(rep)
+            if pid == 'C04':
+                m3real.run_archive(rep, pid, False)
     return lpcheck.run_lp_check(pid, tier, seed, runs_for(pid, tier, seed), rule=RULES[pid], nontrivial=NONTRIVIAL.get(pid), post=post)
